@@ -209,7 +209,7 @@ func runC20Class(c C20Class, info *kit.Info) *kit.Finding {
 }
 
 func TestC20_Class(t *testing.T) {
-	p := kit.Prop[C20Class]{ID: "C20", Name: "Class", Quick: 120000, Thorough: 6000000, Gen: genC20Class, Run: runC20Class}
+	p := kit.Prop[C20Class]{ID: "C20", Name: "Class", Quick: 400000, Thorough: 20000000, Gen: genC20Class, Run: runC20Class}
 	p.Execute(t)
 }
 
@@ -446,6 +446,6 @@ func runC20Expo(c C20Expo, info *kit.Info) *kit.Finding {
 }
 
 func TestC20_Expo(t *testing.T) {
-	p := kit.Prop[C20Expo]{ID: "C20", Name: "Expo", Quick: 3000, Thorough: 150000, Gen: genC20Expo, Run: runC20Expo}
+	p := kit.Prop[C20Expo]{ID: "C20", Name: "Expo", Quick: 12000, Thorough: 600000, Gen: genC20Expo, Run: runC20Expo}
 	p.Execute(t)
 }
